@@ -5,6 +5,7 @@ import (
 	"google.golang.org/grpc/codes"
 	"google.golang.org/grpc/status"
 	"google.golang.org/protobuf/proto"
+	"google.golang.org/protobuf/reflect/protoreflect"
 	"google.golang.org/protobuf/types/known/fieldmaskpb"
 )
 
@@ -51,7 +52,29 @@ func (r *ResponseFilter) Filter(msg proto.Message) {
 		proto.Reset(msg)
 		return
 	}
-	fmutils.Filter(msg, r.paths())
+	r.filter(msg)
+}
+
+// filter keeps what the (valid, non-empty) mask selects. fmutils clears the known fields that are not selected;
+// fields this program does not know are not selected either, at every level the mask only partly selects.
+func (r *ResponseFilter) filter(msg proto.Message) {
+	paths := r.paths()
+	fmutils.Filter(msg, paths)
+	dropUnknown(msg.ProtoReflect(), fmutils.NestedMaskFromPaths(paths))
+}
+
+func dropUnknown(msg protoreflect.Message, mask fmutils.NestedMask) {
+	if len(mask) == 0 {
+		return // selected as a whole, with everything in it
+	}
+	msg.SetUnknown(nil)
+	for name, sub := range mask {
+		fd := msg.Descriptor().Fields().ByName(protoreflect.Name(name))
+		if fd == nil || len(sub) == 0 || fd.Message() == nil || fd.IsList() || fd.IsMap() || !msg.Has(fd) {
+			continue
+		}
+		dropUnknown(msg.Get(fd).Message(), sub)
+	}
 }
 
 // FilterClone is like Filter but clones and returns a new msg instead of modifying the original.
@@ -73,7 +96,7 @@ func (r *ResponseFilter) FilterClone(msg proto.Message) proto.Message {
 		proto.Reset(clone)
 		return clone
 	}
-	fmutils.Filter(clone, r.paths())
+	r.filter(clone)
 	return clone
 }
 
